@@ -6,7 +6,9 @@
 (2) the real Runner.get_result on <= 4 elements with symbolic Q2: every ordering and tie arises as a
     feasible path of `sorted`; output[name][i] is the result of elements[i];
 (3) memo transparency of ScaleVariations.compute_raw and heavy.n3lo.interpolator;
-(4) ESF.get_result hands out a copy sharing nothing with the cached result.
+(4) ESF.get_result hands out a copy sharing nothing with the cached result;
+(5) kernel lists (real Combiner, symbolic Q2, Z, A, electroweak parameters) of later points at the same Q2 built on the run's
+    shared configuration objects equal those of a single-point run.
 """
 
 import itertools
@@ -265,7 +267,64 @@ def replay_copy(args):
     return (not ok), ("a caller's mutation of one result shows up in the next get_result()" if not ok else "private copy")
 
 
-REPLAYERS = {"kindict": replay_kindict, "weights": replay_weights_history, "history": replay_history, "ordering": replay_ordering, "public": replay_public_api, "copy": replay_copy, "memo": replay_memo}
+def shared_cells(tier):
+    """configuration cells of the kernel-list re-entry clause (section 'shared')"""
+    out = []
+    q = tier == "quick"
+    for kind, flav, proc, (sch, nf, zm), pto in itertools.product(
+            ["F2", "FL", "F3"], ["light", "total"], ["EM", "NC", "CC"],
+            [("ZM-VFNS", 4, (1, 1, 1)), ("FFNS", 3, (0, 0, 0)), ("FFN0", 3, (0, 0, 0))], [0, 2, 3]):
+        if proc == "EM" and kind == "F3":
+            continue
+        if pto == 3 and proc == "CC":
+            continue
+        if q and not ((kind == "F2" and proc == "NC" and flav == "light") or (kind == "F3" and proc == "CC" and pto == 0 and sch == "ZM-VFNS")
+                      or (kind == "FL" and proc == "EM" and flav == "total" and pto == 2 and sch == "FFNS")):
+            continue
+        out.append(dict(obs=f"{kind}_{flav}", process=proc, pid=11, scheme=sch, nf=nf, ZMq=tuple(bool(z) for z in zm), pto=pto))
+    return out
+
+
+def shared_pairs(cell, P, Q2, Z, A):
+    """Kernel lists of a second and third point (other x, SAME Q2) built on the run's shared objects (one coupling-constants object, one
+    configuration, one target) vs the list of a run that has only this point: [(label, shared-run weight, single-point-run weight)]."""
+    import yadism.coefficient_functions as cf
+
+    def build():
+        cc = cm.make_coupling(P, cell["process"], cell["pid"])
+        return cm.make_configs(cc, pto=cell["pto"], pto_evol=min(cell["pto"], 2), scheme=cell["scheme"], nf_ff=cell["nf"], ZMq=cell["ZMq"],
+                               m2hq=cm.M2HQ, threshold=cell["nf"], target={"Z": Z, "A": A})
+
+    def form(cfg, x):
+        return cm.linear_form(cf.Combiner(cm.make_esf(cfg, cell["obs"], x, Q2)).collect_elems())
+
+    shared = build()
+    runs = [form(shared, x) for x in (0.1, 0.3, 0.1)]
+    out = []
+    for i, x in ((1, 0.3), (2, 0.1)):
+        alone = form(build(), x)
+        for key in sorted(set(runs[i]) | set(alone), key=str):
+            out.append((f"point{i}:{key[0][0]}[{key[1]}]", runs[i].get(key, 0), alone.get(key, 0)))
+    return out
+
+
+def replay_shared(args):
+    cell = dict(args["cell"])
+    cell["ZMq"] = tuple(cell["ZMq"])
+    with cm.fixed_nf():
+        prs = shared_pairs(cell, cm.ew_params(values=args["params"]), args["params"]["Q2"], args["params"]["Z"], args["params"]["A"])
+    bad = harness.float_pairs_differ(prs, args.get("label"))
+    return (True, f"{cell}: weights of a later point at the same Q2 differ from the single-point run: {bad[:3]}") if bad else (False, "holds")
+
+
+def float_pairs_shared(args):
+    cell = dict(args["cell"])
+    cell["ZMq"] = tuple(cell["ZMq"])
+    with cm.fixed_nf():
+        return shared_pairs(cell, cm.ew_params(values=args["params"]), args["params"]["Q2"], args["params"]["Z"], args["params"]["A"])
+
+
+REPLAYERS = {"shared": replay_shared, "shared:pairs": float_pairs_shared, "kindict": replay_kindict, "weights": replay_weights_history, "history": replay_history, "ordering": replay_ordering, "public": replay_public_api, "copy": replay_copy, "memo": replay_memo}
 
 
 def run(chk, only=None):
@@ -593,12 +652,54 @@ def run(chk, only=None):
             chk.discharged += 1
         else:
             chk.report("copy:get_result", "ESF.get_result hands out (part of) its cached result: a caller can corrupt later requests", "copy", {})
+    # ---- (5) kernel lists on the run's shared objects: a later point at the same Q2 gets the weights of a single-point run ----
+    if only in (None, "shared"):
+        from yv.engine import stubs
+
+        allc = shared_cells(chk.tier)
+        for cell in allc:
+            cname = "shared:" + ":".join(f"{k}={v}" for k, v in cell.items())
+            if not chk.mine(cname):
+                continue
+            with Ctx(chk.seed) as ctx, cm.fixed_nf(), cm.generic_drop_empty(), stubs.cf_stubs():
+
+                def body(cell=cell):
+                    P = cm.ew_params(ctx)
+                    Q2 = ctx.var("Q2", 0, None, wlo=1, whi=20000)
+                    Z = ctx.var("Z", None, None, wlo=0.1, whi=100)
+                    A = ctx.var("A", None, None, wlo=101, whi=250)
+                    return shared_pairs(cell, P, Q2, Z, A)
+
+                ctx.var("A", None, None)
+                ctx.domain.append(ctx.vars["A"][0] != 0)
+                paths = explore.Explorer(ctx, max_paths=16, timeout_ms=3000).run(body)
+                chk.paths += len(paths)
+                if paths and not any(p.kind == "ok" for p in paths) and not all(isinstance(p.value, (ValueError, NotImplementedError)) for p in paths):
+                    chk.inconclusive_note(f"{cname}: vacuity -- every path raised ({type(paths[0].value).__name__}: {str(paths[0].value)[:80]})")
+                for p in paths:
+                    ctx.assign = dict(p.assign)
+                    if p.kind == "exc":
+                        chk.notes.append(f"{cname}: raises {type(p.value).__name__}: {str(p.value)[:80]} (C16)")
+                        continue
+
+                    def rp_for(lab, ctx=ctx, cell=cell):
+                        def rp(model):
+                            asg = explore.model_to_assign(ctx, model)
+                            params = {k: float(asg.get(k, ctx.assign.get(k, 1))) for k in cm.EW_PARAMS + ["Q2", "Z", "A"]}
+                            return "shared", dict(cell=cell, params=params, label=lab)
+                        return rp
+
+                    harness.prove_pairs(chk, cname, p.value, ctx.facts() + p.pc + p.generic, rp_for,
+                                        lambda lab, cell=cell: f"shared:{cell['obs']}:{cell['process']}:{cell['scheme']}:{cell['pto']}:{lab}")
+        chk.section("shared_cells", n=len(allc))
     return chk.finish(
         explanation="(1) The real StructureFunction.get_esf runs after a symbolic history of up to two earlier requests (symbolic values, "
         "both key orders of the kinematics dict, both use_raw flags, TMC on/off); tuple-key equality inside the dict lookup becomes a "
         "solver decision, all hit/miss paths are explored and z3 proves that the returned object carries the requested x and Q2 and has "
         "the requested TMC-ness. (2) The real Runner.get_result runs on up to four elements with symbolic Q2: every ordering and tie is a "
         "feasible path of sorted(); output[name][i] must be the result of elements[i] and unplanned observables must not appear. "
-        "(3) compute_raw/interpolator memos are transparent. (4) get_result returns a private deep copy.",
+        "(3) compute_raw/interpolator memos are transparent. (4) get_result returns a private deep copy. (5) The real Combiner builds the kernel "
+        "lists of three points (two x values, the same symbolic Q2) on ONE configuration / coupling-constants / target object (symbolic Z, A), "
+        "as a run does; z3 proves every weight of the later points equal to the weight of a run that has only that point.",
         rule="one obligation per (history case, path) / (n, path) / memo sequence; distinct = case; non-trivial = symbolic keys or orderings",
     )
